@@ -223,6 +223,7 @@ class World(WorldBase):
             "p_env": rng.choice([0.0, 0.0, 0.1, 0.25]),
             "p_thread": rng.choice([0.0, 0.0, 0.0, 0.15]),
             "huge": rng.random() < float(os.environ.get("VERIF_C18_HUGE", "0.01")),
+            "mid": rng.random() < 0.05,              # two trajectories of a few hundred particles
             "p_respell": rng.choice([0.0, 0.05, 0.15]),
             "p_result_edit": rng.choice([0.0, 0.1, 0.3]),
             "faults": [],
